@@ -360,6 +360,9 @@ func uniqFilter(a []any) (result []any) {
 }
 
 func eqItems(a, b any) bool {
+	if a == nil || b == nil {
+		return a == b
+	}
 	if reflect.TypeOf(a).Comparable() && reflect.TypeOf(b).Comparable() {
 		return a == b
 	}
